@@ -43,7 +43,7 @@ fn run_prop(ctx: &mut Ctx) -> bool {
     }
     let v: Vec<String> = ops::LB7_VIOLATIONS.lock().unwrap().drain(..).collect();
     for m in v {
-        ctx.fail("unicode-linebreak contract: no opportunity directly before a space (UAX #14 LB7)", m, None);
+        ctx.fail("unicode-linebreak contract (strictly increasing positive char boundaries; no opportunity directly before a space, UAX #14 LB7)", m, None);
     }
     r
 }
